@@ -11,6 +11,7 @@ Concurrent async calls are released in every completion order through deferred D
 from __future__ import annotations
 
 import asyncio
+import contextlib
 import itertools
 import threading
 import typing as t
@@ -78,7 +79,7 @@ def plan(tier, seed):
 
 def finalize(agg, tier):
     r = []
-    for c in ("calls_checked", "rpc_counts_compared", "covered_calls_without_rpc", "histories_with_rpc_then_hit", "completion_orders_forced", "thread_rounds"):
+    for c in ("calls_checked", "rpc_counts_compared", "covered_calls_without_rpc", "histories_with_rpc_then_hit", "completion_orders_forced", "thread_rounds", "yield_injections"):
         if agg.counter(c) == 0:
             r.append(f"monitor never reached: {c}")
     return r
@@ -458,7 +459,8 @@ def run_threads(spec, rec: Recorder):
                     except BaseException as e:
                         results[i].append(e)
 
-            with mem.installed(), mon.CLOCK.at_ns(mon.filetime_to_ns(NOW_FT)):
+            inject = mon.YIELDS.active(seed=rnd, every=4) if rnd % 2 else contextlib.nullcontext()
+            with mem.installed(), mon.CLOCK.at_ns(mon.filetime_to_ns(NOW_FT)), inject:
                 ths = [threading.Thread(target=worker, args=(i,)) for i in range(8)]
                 for th in ths:
                     th.start()
@@ -478,6 +480,9 @@ def run_threads(spec, rec: Recorder):
                     elif op[0] == "P" and cms.reference_unprotect(r, w.root_keys) != op[2]:
                         rec.violation("cache-wrong-result", "threads: protect blob does not decrypt", wit)
             rec.count("thread_rounds")
+            if rnd % 2:
+                rec.count("yield_injections", mon.YIELDS.yields)
+                rec.count("lines_under_yield_injection", mon.YIELDS.lines)
             rec.case(("threads", rnd), nontrivial=True)
         rec.sample({"kind": "threads", "threads": 8, "ops_per_thread": 6, "rounds": spec["rounds"], "switchinterval": 1e-6})
     finally:
